@@ -29,6 +29,9 @@ WITNESSES = [
     ("C15-6", "simplify_boolean_expressions", "if (3 < '1') and 0:\n    print('T')\nprint(3)\n"),
     ("C15-6", "format_code", "try:\n    if 1 / 0 or True:\n        print('T')\nexcept ZeroDivisionError:\n    print('ZDE')\n"),
     ("F15-11", "simplify_boolean_expressions", PRELUDE_F + "if f() and 0:\n    print(1)\nprint(3)\n"),
+    # round 5: a call of a rebound name reached ast.literal_eval, which reads set() as the empty set (F15-22)
+    ("F15-22", "remove_dead_ifs", "def set(*a):\n    return 1\nif set():\n    print('T')\nelse:\n    print('F')\n"),
+    ("F15-22", "format_code", "from operator import not_ as set\nprint(1 if not set() else 2)\n"),
 ]
 
 RULES_COND = ["remove_dead_ifs", "delete_unreachable_code", "remove_redundant_boolop_values",
